@@ -79,6 +79,14 @@ Theorem C05_ended_status : forall cs ord p0 th i p1 k p2 th' s0 p3 s,
 Proof. exact C05_ended_status_lemma. Qed.
 Print Assumptions C05_ended_status.
 
+(* exit_on_skipped: when the instance of a thread that logged a failed dependency wait fires its exit
+   trigger (which the model lets it do only if its configuration has exit_on_skipped), the trigger carries
+   exit code 1.  (Which trigger's code becomes the project's exit code is C04's subject.) *)
+Theorem C05_trigger_code : forall cs ord p1 th k p2 c p3 s,
+  accept (init cs ord) (p1 ++ (th, EDepDone k false) :: p2 ++ (th, EExitTrigger c) :: p3) = Some s -> c = 1%Z.
+Proof. exact C05_trigger_code_lemma. Qed.
+Print Assumptions C05_trigger_code.
+
 (* Non-vacuity: a chain A <- B <- C (process_completed_successfully), C has exit_on_skipped.  A exits with
    code 1; B is refused, skipped, reported Skipped with code 1; C is refused in turn (transitivity) and
    skipped; C's exit_on_skipped trigger fires with code 1.  49 events, accepted, outside every window, and
